@@ -182,8 +182,30 @@ def run(ctx):
             ctx.check(len(guards) == 1 and len(handled[v]) == 1, "R1.1", construct,
                       f"sub-type {v:#x} is used for {sorted(guards)} / handled by {len(handled[v])} branches: the decoder cannot tell them apart",
                       emitted[v][0][1], f"{sorted(guards)[0].split('.')[-1]} <-> one decoder branch", key=f"R1.1:ambiguous-subtype:{v:#x}")
+    # a sub-type that equals none of the handled constants can only end in a raise: explore unpack_obj assuming every `subtype == K` false
+    from .. import logic as _lg1
+
+    ucfg1 = CFG(unpack_obj)
+
+    def _none_of(atom):
+        try:
+            e = ast.parse(atom, mode="eval").body
+        except SyntaxError:
+            return None
+        if isinstance(e, ast.Compare) and len(e.ops) == 1 and isinstance(e.ops[0], ast.Eq):
+            for a, b_ in ((e.left, e.comparators[0]), (e.comparators[0], e.left)):
+                if isinstance(a, ast.Name) and a.id == uvar:
+                    try:
+                        if isinstance(prog.fold(packer_m, b_), int):
+                            return False
+                    except NotConst:
+                        return None
+        return None
+
+    unknown_reach = _lg1.reachable_assuming(ucfg1, ucfg1.entry, _none_of)
     last = unpack_obj.body[-1]
-    ctx.check(isinstance(last, ast.Raise), "R1.1", "unpack_obj:unknown-subtype", "unpack_obj does not end in a raise for unknown sub-types", last,
+    returns_for_unknown = [ucfg1.nodes[i].ast for i in unknown_reach if isinstance(ucfg1.nodes[i].ast, ast.Return)]
+    ctx.check(not returns_for_unknown and ucfg1.raise_exit in unknown_reach, "R1.1", "unpack_obj:unknown-subtype", "unpack_obj does not end in a raise for unknown sub-types", returns_for_unknown[0] if returns_for_unknown else last,
               "unknown sub-type raises")
     for u in ubs:
         falls = not _always_leaves(u.if_node.body)
